@@ -76,6 +76,17 @@ def condEq (stored req : TupleRec) : Bool :=
 def semCondEq (stored req : TupleRec) : Bool :=
   (normCond stored).condName == (normCond req).condName && (normCond stored).condCtx == (normCond req).condCtx
 
+/-- source text of the comparison once both sides go through `NewRelationshipCondition` (memory / SQL) -/
+def memCompareNormalisedText : String :=
+  "proto.Equal( tupleUtils.NewRelationshipCondition(record.ConditionName, record.ConditionContext), tupleUtils.NewRelationshipCondition(tk.GetCondition().GetName(), tk.GetCondition().GetContext()), )"
+def sqlCompareNormalisedText : String :=
+  "proto.Equal(existingTuple.GetKey().GetCondition(), tupleUtils.NewRelationshipCondition(tk.GetCondition().GetName(), tk.GetCondition().GetContext()))"
+
+/-- the comparison the model is run with, chosen by the source text of the `if` under on_duplicate=ignore: the
+    normalising comparison if the text is the normalised form, the raw comparison (finding F13) for anything else -/
+def ceqOfSource (text normalisedText : String) : TupleRec → TupleRec → Bool :=
+  if text == normalisedText then semCondEq else condEq
+
 /-! ## options and errors -/
 
 structure WriteOpts where
